@@ -89,6 +89,13 @@ end Mask
 /-- `bit ∈ managed_object.cryptographic_usage_masks` -/
 def hasBit (mask bit : Nat) : Bool := (mask &&& bit) != 0
 
+/-- Python's `value & m` for an arbitrary (possibly negative) integer `value` and a non-negative mask `m`:
+two's complement, `-(n+1) = ~n`. -/
+def landMask (a : Int) (m : Nat) : Nat :=
+  match a with
+  | .ofNat n => n &&& m
+  | .negSucc n => m - (m &&& n)
+
 /-! ### stored objects -/
 
 /-- One managed object as the engine sees it through the ORM.
